@@ -115,7 +115,7 @@ def build(tier):
         Target('bundle_append3', [a3(), a4()], H, replace=['bundle_append4']),
         Target('bundle_moveto', [mv(), a4()], H, replace=['bundle_append4']),
         Target('bundle_ctor', [ctor, a4()], H, replace=['bundle_append4']),
-        Target('bundle_econverged', [econv], H), Target('bundle_sconverged', [sconv], H),
+        Target('bundle_econverged', [econv, size(), cap()], H, replace=acc), Target('bundle_sconverged', [sconv, size(), cap()], H, replace=acc),
     ] + protocol.targets(['NV_C03'])
     return {
         'targets': targets, 'vcs': [],
